@@ -21,6 +21,16 @@ Definition global_ok (g : string * string * string * bool * list string) : bool 
 Lemma bridge_globals : forallb global_ok gen_globals = true.
 Proof. vm_compute. reflexivity. Qed.
 
+(* the streaming decoder, the loaders, the low-level encoders, the UTF-8 counter and the size guards keep no state
+   between calls: no variable with static storage duration in their files is mutable or ever assigned *)
+Definition stateless_files := ["cbor/streaming.c"; "cbor/internal/loaders.c"; "cbor/internal/encoders.c"; "cbor/encoding.c";
+                               "cbor/internal/unicode.c"; "cbor/internal/memory_utils.c"; "cbor/callbacks.c"].
+Definition stateless_ok (g : string * string * string * bool * list string) : bool :=
+  let '(name, file, fn, is_const, writers) := g in
+  negb (mem file stateless_files) || (is_const && match writers with [] => true | _ => false end).
+Lemma bridge_stateless_files : forallb stateless_ok gen_globals = true.
+Proof. vm_compute. reflexivity. Qed.
+
 (* the only direct references to libc allocation functions are the three initialisers *)
 Definition libc_ref_ok (r : string * string * string) : bool :=
   let '(file, fn, name) := r in
